@@ -97,6 +97,8 @@ class Obj:
         Obj._count += 1
         self.oid = Obj._count
         self.label = label
+        # instances of dict subclasses (Databox) keep their mapping here
+        self.store = {} if isinstance(cls, type) and issubclass(cls, dict) else None
 
     def __repr__(self):
         return f"Obj<{self.cls.__name__}#{self.oid} {self.attrs}>"
